@@ -209,10 +209,14 @@ pub fn images_at(sh: &Shadow, next_write: Option<(u64, u64, &[u8])>, r: &mut Rng
 /// D6 predicate on a witness: chunk `pid` of the image, which is followed by chunk `y`, lacks
 /// bytes below `y` only because they had not been written / made durable yet when the crash
 /// happened (its complete-record prefix is a prefix of what the full trace later wrote there).
-fn hole_is_unwritten_tail(img: &Image, pid: u64, y: u64, final_written: &BTreeMap<u64, Vec<u8>>) -> bool {
+fn hole_is_unwritten_tail(img: &Image, pid: u64, y: u64, final_written: &BTreeMap<u64, Vec<u8>>, acked_gend: u64) -> bool {
     let Some((_, pbytes)) = img.iter().find(|(c, _)| *c == pid) else { return false };
     let p = refcodec::parse_file(pbytes);
     if matches!(p.tail, refcodec::Tail::Damaged(_)) {
+        return false;
+    }
+    // bytes that an acknowledged flush covered can never be legitimately missing
+    if pid + (p.good_len as u64) < acked_gend {
         return false;
     }
     let complete_len = (y - pid) as usize;
@@ -224,7 +228,7 @@ fn parse_padded(s: &str) -> Option<u64> {
     s.trim().replace('_', "").parse::<u64>().ok()
 }
 
-fn classify_open_failure(rec: &Recovered, img: &Image, final_written: &BTreeMap<u64, Vec<u8>>) -> String {
+fn classify_open_failure(rec: &Recovered, img: &Image, final_written: &BTreeMap<u64, Vec<u8>>, acked_gend: u64) -> String {
     match rec {
         Recovered::Panic(p) => format!("open_panic:{}", p.rsplit(" @ ").next().unwrap_or("?")),
         Recovered::Err(e) => {
@@ -238,8 +242,12 @@ fn classify_open_failure(rec: &Recovered, img: &Image, final_written: &BTreeMap<
                     // gap reported in front of such a chunk is a different failure.
                     let y_has_head = img.iter().find(|(c, _)| *c == y).map(|(_, b)| !refcodec::parse_file(b).recs.is_empty()).unwrap_or(false);
                     if let Some((pid, _)) = img.iter().filter(|(c, _)| *c < y).last() {
-                        if y_has_head && hole_is_unwritten_tail(img, *pid, y, final_written) {
+                        if y_has_head && hole_is_unwritten_tail(img, *pid, y, final_written, acked_gend) {
                             return "open_err:hole_left_by_unwritten_chunk_tail".into();
+                        }
+                        let good = refcodec::parse_file(&img.iter().find(|(c, _)| c == pid).unwrap().1).good_len as u64;
+                        if pid + good < acked_gend {
+                            return "open_err:hole_where_acknowledged_bytes_were".into();
                         }
                     }
                     if !y_has_head {
@@ -253,8 +261,11 @@ fn classify_open_failure(rec: &Recovered, img: &Image, final_written: &BTreeMap<
                 let id = e.split("ChunkId(").nth(1).and_then(|r| r.split(')').next()).and_then(parse_padded);
                 if let Some(pid) = id {
                     if let Some((y, _)) = img.iter().find(|(c, _)| *c > pid) {
-                        if hole_is_unwritten_tail(img, pid, *y, final_written) {
+                        if hole_is_unwritten_tail(img, pid, *y, final_written, acked_gend) {
                             return "open_err:hole_left_by_unwritten_chunk_tail".into();
+                        }
+                        if pid < acked_gend {
+                            return "open_err:hole_where_acknowledged_bytes_were".into();
                         }
                     }
                 }
@@ -291,6 +302,8 @@ pub struct Enumerator<'a> {
     pub final_written: BTreeMap<u64, Vec<u8>>,
     pub deadline: f64,
     pub sample: Option<Value>,
+    /// journal end covered by the flushes acknowledged Ok before the current crash point
+    pub acked_gend: u64,
 }
 
 impl<'a> Enumerator<'a> {
@@ -315,7 +328,7 @@ impl<'a> Enumerator<'a> {
                 }
             }
         }
-        Enumerator { case, rr, idir: ImageDir::new("img"), cfg: recovery_cfg(&rr.final_cfg), cache: HashMap::new(), by_digest, stats: CrashStats::default(), viols: vec![], thorough, r: Rng::new(seed), final_written, deadline, sample: None }
+        Enumerator { case, rr, idir: ImageDir::new("img"), cfg: recovery_cfg(&rr.final_cfg), cache: HashMap::new(), by_digest, stats: CrashStats::default(), viols: vec![], thorough, r: Rng::new(seed), final_written, deadline, sample: None, acked_gend: 0 }
     }
 
     fn push_viol(&mut self, prop: &str, sig: String, text: String, k: usize, fam: &str, img: &Image) {
@@ -375,7 +388,7 @@ impl<'a> Enumerator<'a> {
             }
             other => {
                 self.stats.open_failures += 1;
-                let sig = classify_open_failure(other, img, &self.final_written);
+                let sig = classify_open_failure(other, img, &self.final_written, self.acked_gend);
                 let text = match other {
                     Recovered::Err(e) => format!("open refused: {}", e),
                     Recovered::Panic(p) => format!("open panicked: {}", p),
@@ -492,7 +505,7 @@ impl<'a> Enumerator<'a> {
                         }
                     }
                     other => {
-                        let sig = format!("crash_during_recovery:{}", classify_open_failure(other, &im2, &self.final_written));
+                        let sig = format!("crash_during_recovery:{}", classify_open_failure(other, &im2, &self.final_written, self.acked_gend));
                         let text = match other {
                             Recovered::Err(e) => format!("open refused: {}", e),
                             Recovered::Panic(p) => format!("open panicked: {}", p),
@@ -512,6 +525,7 @@ impl<'a> Enumerator<'a> {
         let mut a = 0usize;
         let mut hi = 0usize;
         let flush_by_id: HashMap<u64, usize> = rr.flushes.iter().map(|f| (f.id, f.writes_before)).collect();
+        let gend_by_id: HashMap<u64, u64> = rr.flushes.iter().map(|f| (f.id, f.gend)).collect();
         let mut shadow_version = 0u64;
         let mut last_imgs: Option<(u64, Vec<(String, Image)>)> = None;
         for k in 0..t.evs.len() {
@@ -524,6 +538,9 @@ impl<'a> Enumerator<'a> {
                 Ek::Ack { flush, ok: true } => {
                     if let Some(w) = flush_by_id.get(flush) {
                         a = a.max(*w);
+                    }
+                    if let Some(g) = gend_by_id.get(flush) {
+                        self.acked_gend = self.acked_gend.max(*g);
                     }
                 }
                 Ek::OpBegin { op } => {
